@@ -1123,3 +1123,6 @@ m('c08-evaluate-kernel', ['C08'],
                                                  (2 * t)) * self.u0(y)
 
         #if (t < 0.01):"""), rule='K6')
+m('c03-revert-f9', ['C03'],
+  (EE, "                    result[i] += np.squeeze(M0u0(t, x.reshape(2, 1)))",
+   "                    result[i] += M0u0(t, x.reshape(2, 1))"), rule='R-scalar')
